@@ -89,9 +89,17 @@ func families(tier string) []family {
 	core = append(core, deep...)
 	link = append(link, deep...)
 	chain = append(chain, deep...)
+	// an empty directory that a later entry replaces by a symbolic link (a per-extraction cache of
+	// "checked" directories would go stale), plus entries below it
+	replace := []entry{
+		{kind: 's', name: "x", target: "."}, {kind: 'd', name: "a"}, {kind: 's', name: "l", target: "a/b"},
+		{kind: 's', name: "a", target: "x/x/../.."}, {kind: 's', name: "a", target: "x/.."},
+		{kind: 'r', name: "a/f"}, {kind: 'd', name: "a/d"}, {kind: 'r', name: "a"},
+	}
 	three := []string{"empty", "files", "uplink"}
 	if tier != "thorough" {
 		return []family{
+			{name: "replace5", title: "n", alpha: replace, depth: 5, states: []string{"empty"}, nsh: 16},
 			{name: "full2", title: "n", alpha: full, depth: 2, states: three, nsh: 8},
 			{name: "core3", title: "n", alpha: core, depth: 3, states: three, nsh: 48},
 			{name: "rootlinks4", title: ".", alpha: link, depth: 4, states: []string{"empty"}, nsh: 16},
@@ -103,6 +111,7 @@ func families(tier string) []family {
 		{name: "mini4", title: "n", alpha: mini, depth: 4, states: three, nsh: 64},
 		{name: "rootlinks5", title: ".", alpha: link, depth: 5, states: []string{"empty"}, nsh: 64},
 		{name: "chain5", title: "n", alpha: chain, depth: 5, states: []string{"empty"}, nsh: 64},
+		{name: "replace6", title: "n", alpha: replace, depth: 6, states: []string{"empty"}, nsh: 64},
 		// the largest family last: when the budget runs out it is the one cut short
 		{name: "full3", title: "n", alpha: full, depth: 3, states: []string{"empty"}, nsh: 256},
 	}
